@@ -147,7 +147,29 @@ def e2eObs (rest : List String) : String :=
 /-- strings as the real code makes them: std's cutting, the UTF-8 encoder; the lossy string is not modelled -/
 def strOf : Rustic.Snapshot.Str := { cut := fun bs => decode bs #[], enc := utf8, lossy := fun _ => [] }
 
+/-- `c01 lookup`: the directory's nodes are the byte-sorted names stored (`toSNode`: escaped) and read (`fromSNode`: un-escaped);
+per query `Snapshot.findNode` — the search of `Tree::node_from_path` -/
+def lookupObs (names queries : List (List UInt8)) : String :=
+  let sorted := names.mergeSort (fun a b => Rustic.Tree.cmpName a b != .gt)
+  let nodes : List Rustic.Tree.Node := sorted.map fun n =>
+    Rustic.Snapshot.fromSNode strOf (Rustic.Snapshot.toSNode strOf { name := n, kind := .file, md := default })
+  let one (q : List UInt8) : String :=
+    match Rustic.Snapshot.findNode nodes q with
+    | none => "n"
+    | some n => match nodes.findIdx? (· == n) with
+      | some i => s!"f{i}"
+      | none => "?"
+  "ok " ++ " ".intercalate (queries.map one)
+
+def nameOk (c : List UInt8) : Bool :=
+  !(c.isEmpty || c.length > 255 || c == [46] || c == [46, 46] || c.contains 47 || c.contains 0)
+
 def handle : List String → String
+  | ["lookup", names, queries] =>
+    match (names.splitOn ",").mapM unhex, (queries.splitOn ",").mapM unhex with
+    | some ns, some qs =>
+      if (ns ++ qs).all nameOk && ns.eraseDups.length == ns.length then lookupObs ns qs else "bad-op"
+    | _, _ => "bad-op"
   | ["esc", name] =>
     match unhex name with
     | none => "bad-op"
